@@ -77,3 +77,121 @@ def aero_outputs(prob, surfaces):
             L=float(prob.get_val("pt.%s_perf.L" % n)[0]), D=float(prob.get_val("pt.%s_perf.D" % n)[0]),
         )
     return out
+
+
+def struct_surface(name, mesh, symmetry, fem="tube", **kw):
+    s = dict(name=name, symmetry=symmetry, S_ref_type="wetted", fem_model_type=fem, mesh=np.array(mesh, dtype=float),
+             E=70.0e9, G=30.0e9, mrho=3.0e3, fem_origin=0.35, wing_weight_ratio=2.0, struct_weight_relief=False,
+             distributed_fuel_weight=False, exact_failure_constraint=False, thickness_cp=np.array([0.01, 0.02]),
+             CL0=0.0, CD0=0.015, k_lam=0.05, t_over_c_cp=np.array([0.15]), c_max_t=0.303, with_viscous=True, with_wave=False)
+    s["yield"] = 500.0e6 / 2.5
+    s.update(kw)
+    return s
+
+
+def run_beam(surface, nodes, sec, loads):
+    """real AssembleKGroup + SpatialBeamStates: returns disp[ny,6]"""
+    from openaerostruct.structures.assemble_k_group import AssembleKGroup
+    from openaerostruct.structures.spatial_beam_states import SpatialBeamStates
+    prob = om.Problem(reports=False)
+    ivc = om.IndepVarComp()
+    ivc.add_output("nodes", val=nodes, units="m")
+    for k in ("A", "Iy", "Iz", "J"):
+        ivc.add_output(k, val=sec[k])
+    ivc.add_output("loads", val=loads, units="N")
+    prob.model.add_subsystem("ivc", ivc, promotes=["*"])
+    prob.model.add_subsystem("k", AssembleKGroup(surface=surface), promotes=["*"])
+    prob.model.add_subsystem("st", SpatialBeamStates(surface=surface), promotes=["*"])
+    with quiet():
+        prob.setup(); prob.run_model()
+    return prob
+
+
+def build_aerostruct(surfaces, flows, nonlinear="nlbgs", linear="direct", aitken=True, mode="auto", struct_surfaces=None):
+    """AerostructGeometry per surface + one AerostructPoint per flow (multipoint when several flows).  Tube or wingbox.
+    flows: list of dicts(alpha, v, rho, Mach_number, re, load_factor, ...)"""
+    from openaerostruct.integration.aerostruct_groups import AerostructGeometry, AerostructPoint
+    from openaerostruct.utils.constants import grav_constant
+    prob = om.Problem(reports=False)
+    ivc = om.IndepVarComp()
+    npts = len(flows)
+    f0 = flows[0]
+    ivc.add_output("CT", val=f0.get("CT", grav_constant * 17.0e-6), units="1/s")
+    ivc.add_output("R", val=f0.get("R", 11.165e6), units="m")
+    ivc.add_output("W0", val=f0.get("W0", 0.4 * 3e5), units="kg")
+    ivc.add_output("empty_cg", val=np.array(f0.get("empty_cg", np.zeros(3))), units="m")
+    for i, f in enumerate(flows):
+        sfx = "" if npts == 1 else "_%d" % i
+        ivc.add_output("v" + sfx, val=f.get("v", 248.136), units="m/s")
+        ivc.add_output("alpha" + sfx, val=f.get("alpha", 5.0), units="deg")
+        ivc.add_output("beta" + sfx, val=f.get("beta", 0.0), units="deg")
+        ivc.add_output("Mach_number" + sfx, val=f.get("Mach_number", 0.84))
+        ivc.add_output("re" + sfx, val=f.get("re", 1.0e6), units="1/m")
+        ivc.add_output("rho" + sfx, val=f.get("rho", 0.38), units="kg/m**3")
+        ivc.add_output("speed_of_sound" + sfx, val=f.get("speed_of_sound", 295.4), units="m/s")
+        ivc.add_output("load_factor" + sfx, val=f.get("load_factor", 1.0))
+    prob.model.add_subsystem("prob_vars", ivc, promotes=["*"])
+    for s in surfaces:
+        prob.model.add_subsystem(s["name"], AerostructGeometry(surface=s))
+    for i, f in enumerate(flows):
+        sfx = "" if npts == 1 else "_%d" % i
+        pn = "AS_point_%d" % i
+        pt = AerostructPoint(surfaces=surfaces)
+        prob.model.add_subsystem(pn, pt)
+        for k in ("v", "alpha", "beta", "Mach_number", "re", "rho", "speed_of_sound", "load_factor"):
+            prob.model.connect(k + sfx, pn + "." + k)
+        for k in ("CT", "R", "W0", "empty_cg"):
+            prob.model.connect(k, pn + "." + k)
+        for s in surfaces:
+            n = s["name"]; com = pn + "." + n + "_perf"
+            prob.model.connect(n + ".local_stiff_transformed", pn + ".coupled." + n + ".local_stiff_transformed")
+            prob.model.connect(n + ".nodes", pn + ".coupled." + n + ".nodes")
+            prob.model.connect(n + ".mesh", pn + ".coupled." + n + ".mesh")
+            prob.model.connect(n + ".nodes", com + ".nodes")
+            prob.model.connect(n + ".cg_location", pn + ".total_perf." + n + "_cg_location")
+            prob.model.connect(n + ".structural_mass", pn + ".total_perf." + n + "_structural_mass")
+            prob.model.connect(n + ".t_over_c", com + ".t_over_c")
+            if s["fem_model_type"] == "tube":
+                prob.model.connect(n + ".radius", com + ".radius")
+                prob.model.connect(n + ".thickness", com + ".thickness")
+            else:
+                for k in ("Qz", "J", "A_enc", "htop", "hbottom", "hfront", "hrear", "spar_thickness"):
+                    prob.model.connect(n + "." + k, com + "." + k)
+            if s.get("struct_weight_relief", False):
+                prob.model.connect(n + ".element_mass", pn + ".coupled." + n + ".element_mass")
+            if s.get("distributed_fuel_weight", False):
+                prob.model.connect(n + ".struct_setup.fuel_vols", pn + ".coupled." + n + ".struct_states.fuel_vols")
+                prob.model.connect("fuel_mass", pn + ".coupled." + n + ".struct_states.fuel_mass")
+    with quiet():
+        prob.setup(mode=mode)
+    for i in range(npts):
+        coupled = getattr(prob.model, "AS_point_%d" % i).coupled
+        if nonlinear == "newton":
+            coupled.nonlinear_solver = om.NewtonSolver(solve_subsystems=True, maxiter=30, atol=1e-11, rtol=1e-13, iprint=-1)
+            coupled.nonlinear_solver.linesearch = None
+        else:
+            coupled.nonlinear_solver = om.NonlinearBlockGS(use_aitken=aitken, maxiter=200, atol=1e-11, rtol=1e-13, iprint=-1)
+        if linear == "lbgs":
+            coupled.linear_solver = om.LinearBlockGS(maxiter=500, atol=1e-14, rtol=1e-13, iprint=-1, err_on_non_converge=True)
+        elif linear == "krylov":
+            coupled.linear_solver = om.ScipyKrylov(maxiter=2000, atol=1e-14, rtol=1e-13, iprint=-1, err_on_non_converge=True, restart=200)
+            coupled.linear_solver.precon = om.LinearRunOnce()
+        else:
+            coupled.linear_solver = om.DirectSolver(assemble_jac=True)
+    return prob
+
+
+def build_struct_alone(surface, loads=None):
+    from openaerostruct.structures.struct_groups import SpatialBeamAlone
+    prob = om.Problem(reports=False)
+    ny = surface["mesh"].shape[1]
+    ivc = om.IndepVarComp()
+    ivc.add_output("loads", val=np.array(loads if loads is not None else np.ones((ny, 6)) * 2e5), units="N")
+    ivc.add_output("load_factor", val=1.0)
+    prob.model.add_subsystem("ivc", ivc, promotes=["*"])
+    needs_lf = surface.get("struct_weight_relief") or surface.get("distributed_fuel_weight") or "n_point_masses" in surface
+    prob.model.add_subsystem(surface["name"], SpatialBeamAlone(surface=surface), promotes_inputs=["load_factor"] if needs_lf else [])
+    prob.model.connect("loads", surface["name"] + ".loads")
+    with quiet():
+        prob.setup()
+    return prob
